@@ -37,7 +37,7 @@ HITS = [
     hit('parabola', (1, 4), (-1, 1), (3, 0, (9, 8)), (1, 1), ((-3, 5), 0, (4, 5)), (0, 1, 0)),
     hit('parabola', (1, 4), (-1, 1), (0, -3, (9, 8)), (1, 1), (0, (3, 5), (4, 5)), (0, (-4, 5), (3, 5))),
 ]
-INCID = [((1, 1), (0, 1)), ((4, 5), (3, 5)), ((3, 5), (4, 5)), ((12, 13), (5, 13))]
+INCID = [((1, 1), (0, 1)), ((4, 5), (3, 5)), ((3, 5), (4, 5)), ((12, 13), (5, 13)), ((-4, 5), (3, 5)), ((-1, 1), (0, 1))]
 BENDS = ['[typ |-> "reflect", mu |-> <<1, 1>>, ci2 |-> <<1, 1>>, si2 |-> <<0, 1>>]'] + [
     '[typ |-> "refract", mu |-> %s, ci2 |-> %s, si2 |-> %s]' % (R(*m), R(*c), R(*s)) for m, c, s in [
         ((2, 3), (1, 1), (0, 1)), ((3, 2), (1, 1), (0, 1)),
@@ -86,7 +86,7 @@ def replay(rec, ctx, np, SM, SF):
     cross = pl_ - (pl_[2] / sl_[2]) * sl_ if sl_[2] != 0 else np.array([np.inf, np.inf, 0.])
     steep = kind != 'plane' and (1 + k) * c * c * float((cross[0] + sx) ** 2 + (cross[1] + sy) ** 2) >= 1
     offaxis = bool(sx or sy)
-    cls = '%s:%s:%s:%s%s%s' % (kind, typ, vertex, framed, ':steep' if steep else '', (':offaxis-section' + (':local-origin' if rec['localorigin'] else '')) if offaxis else '')
+    cls = '%s:%s:%s:%s%s%s' % (kind, typ, vertex, framed, ':steep' if steep else '', (':offaxis-section' + (':local-origin' if rec['localorigin'] else '')) if offaxis else '') + (':from+z' if rec['inc'][0][0] < 0 else '')
     fails = []
     try:
         Rm = None if framed == 'identity' and not pos.any() else rot
@@ -143,8 +143,16 @@ def replay(rec, ctx, np, SM, SF):
             raise
         fails.append(('raised', '%s: %s' % (type(ex).__name__, ex)))
     ctx.replayed(1, key=json.dumps([rec['hit'], rec['inc'], rec['bend'], rec['frame'], rec['len'], rec['shift']]))
+ 
     for kind_, m in fails:
-        ctx.fail('Ray:%s:%s' % (kind_, cls), 'c=%s k=%s Q=%s inc=%s mu=%s: %s' % (c, k, fv(h['q']), rec['inc'], mu, m[:400]), rec)
+        # tags that have no bearing on the failure are left out of the signature (the steep-ray NaN does not depend on the side
+        # the ray comes from; the local-origin normal does not either)
+        cls_ = cls
+        if (steep and kind_ == 'intersection') or rec['localorigin']:
+            cls_ = cls_.replace(':from+z', '')
+        if steep and kind_ == 'intersection':
+            cls_ = cls_.replace(':local-origin', '')
+        ctx.fail('Ray:%s:%s' % (kind_, cls_), 'c=%s k=%s Q=%s inc=%s mu=%s: %s' % (c, k, fv(h['q']), rec['inc'], mu, m[:400]), rec)
 
 
 def replay_rotation(ctx, np, SM):
